@@ -553,6 +553,50 @@ def r16_9(ctx):
     ctx.floor(rid, n, 3, "stores of other-representation values")
 
 
+def r16_10(ctx):
+    rid = "R16.10"
+    ctx.rule(rid, "the two directions of a hinted search compare mirror-wise: CO_Tree::bisect_near looks for a key starting from a hint, backwards when the hinted index is greater than the key and forwards otherwise; each direction clamps at the end of the array, probes exponentially and stops on equality or when it has passed the key. The sequence of comparisons of a stored index with the key in the backward half (`>=` at the clamped first slot, `==`, `<`) is the mirror image of the forward one (`<=`, `==`, `>`): an inclusive test turned exclusive in one half makes the search miss a key stored exactly at the clamped slot (a stored coefficient is reported absent, a hinted insertion duplicates it)")
+    fx = ctx.extract([F.lib_unit("CO_Tree.cc")])
+    mir = {"<": ">", ">": "<", "<=": ">=", ">=": "<=", "==": "==", "!=": "!="}
+    n = 0
+    for f in fx.functions:
+        if f.clsn != "CO_Tree":
+            continue
+        for x in f.walk():
+            if x["k"] != "if":
+                continue
+            cond, th, el = f.deref(x["c"][2]), f.deref(x["c"][3]), f.deref(x["c"][4])
+            if cond is None or th is None or el is None or cond["k"] not in ("binop", "ocall") or cond.get("op") not in ("<", ">", "<=", ">="):
+                continue
+            if not any(y["k"] in ("for", "while", "do") for y in f.walk(th)) or not any(y["k"] in ("for", "while", "do") for y in f.walk(el)):
+                continue
+            key = f.text(f.deref(cond["c"][-1])).replace(" ", "")
+
+            def seq(arm):
+                out = []
+                for y in f.walk(arm):
+                    if y["k"] in ("binop", "ocall") and y.get("op") in mir and len(y.get("c", ())) >= 2:
+                        r = f.deref(y["c"][-1])
+                        if r is not None and f.text(r).replace(" ", "") == key:
+                            out.append((y["op"], y))
+                return out
+            s1, s2 = seq(th), seq(el)
+            if len(s1) < 2 and len(s2) < 2:
+                continue
+            n += 1
+            inst = "%s: the two halves of `if (%s)` (line %s)" % (f.name, f.text(cond)[:40], x.get("l"))
+            if [mir[a] for a, _ in s1] == [b for b, _ in s2]:
+                ctx.ok(rid, inst, f.where(x))
+            else:
+                k = 0
+                while k < min(len(s1), len(s2)) and mir[s1[k][0]] == s2[k][0]:
+                    k += 1
+                where = s1[k][1] if k < len(s1) else s2[k][1]
+                ctx.violation(rid, inst, f.where(where), "comparisons with `%s`: the first half has %s, the second half %s; they are not mirror images (difference at position %d)" % (
+                    key, " ".join(a for a, _ in s1), " ".join(b for b, _ in s2), k + 1))
+    ctx.floor(rid, n, 1, "two-direction searches")
+
+
 def run(ctx):
     ctx.explanation = ("C16 structural clauses: Dense/Sparse dispatch arms, Representation switches and explicit "
                        "specialisations agree (necessary for representation independence); decides the dispatch clause, "
@@ -568,6 +612,7 @@ def run(ctx):
     r16_7(ctx)
     r16_8(ctx)
     r16_9(ctx)
+    r16_10(ctx)
     from rules import dirty
     fxd = ctx.extract([F.lib_unit(n) for n in ("Linear_Expression.cc", "Linear_Expression_Impl.cc", "Sparse_Row.cc", "Dense_Row.cc", "Scalar_Products.cc", "CO_Tree.cc")]
                       + [F.driver_unit("domains.cc", file_re=r"(Linear_Expression_Impl_templates|Linear_Expression_inlines|Linear_System_templates|Matrix_templates|Sparse_Row_templates)\.hh")])
